@@ -84,10 +84,11 @@ def run(ctx):
     gen_cases = [["gbase"] + c[1:] for c in warm0 if c[0] == "base"]
     if ctx.model_ok:
         gm, gi = vlib.run_model(gen_cases), vlib.run_impl(gen_cases)
+        ctx.advisory_cases += len(gen_cases)
         ctx.corr_stats["generated_code"] = {"cases": len(gen_cases), "disagreements": sum(1 for a, b in zip(gm, gi) if a != b)}
         for c, a, b in zip(gen_cases, gm, gi):
-            if a != b and len(ctx.disagreements) < 20:
-                ctx.disagreements.append({"case": c, "model": a[:300], "impl": b[:300], "label": "generated-code (anonymize/deanonymize translated from the source)"})
+            if a != b and len(ctx.advisory_disagreements) < 20:
+                ctx.advisory_disagreements.append({"case": c, "model": a[:300], "impl": b[:300], "label": "generated-code (anonymize/deanonymize translated from the source)"})
     cold_i, closed_i, raw_i, exp_i, nt = cold_phase(vlib.run_impl, fwd, ctx.seed)
     warm_i, wclosed_i, wraw_i = warm_phase(vlib.run_impl, warm0)
     if ctx.model_ok:
